@@ -107,7 +107,7 @@ fn touch_reads(ctx: &ArrCtx, c: &[u64], inner: &[u64], i: usize) -> Vec<(&'stati
 }
 
 /// CRC-32C (Castagnoli), bit-serial; used to keep an adversarially rewritten shard index self-consistent
-fn crc32c_bitwise(data: &[u8]) -> u32 {
+pub fn crc32c_bitwise(data: &[u8]) -> u32 {
     let mut r: u32 = 0xFFFF_FFFF;
     for &b in data { r ^= b as u32; for _ in 0..8 { r = if r & 1 == 1 { (r >> 1) ^ 0x82F6_3B78 } else { r >> 1 }; } }
     r ^ 0xFFFF_FFFF
